@@ -326,7 +326,7 @@ def gen_cases(tier, seed):
 
     def derive(subject, sg, start=None, dur=None, fn=None, **kw):
         c = {'fn': fn or rng.choice(['derive_cert', 'derive_cert', 'new_cert']), 'key_name': gen_key_name(rng), 'issuer': gen_issuer_id(rng),
-             'subject': subject, 'signer': sg, 'start': start or gen_start(rng), 'duration': dur or rng.choice(DURATIONS)}
+             'subject': subject, 'signer': sg, 'start': start or gen_start(rng), 'duration': rng.choice(DURATIONS) if dur is None else dur}
         c.update(kw)
         return c
 
@@ -356,6 +356,11 @@ def gen_cases(tier, seed):
                 if st[0] >= 2199 and dur > 86400:
                     continue
                 cases.append(derive(rng.choice(SUBJECTS), signer(rng.choice(['ed25519', 'p256'])), {'ymdhms': st, 'tz': tz}, dur))
+    # the shortest requestable lifetimes, 0 included (NotAfter = NotBefore), for every start instant
+    for st in STARTS[::2] if not thorough else STARTS:
+        for dur in (0, 1):
+            cases.append(derive(rng.choice(SUBJECTS), signer('ed25519'), {'ymdhms': st, 'tz': rng.choice([None, 'utc', 330])}, dur,
+                                fn='derive_cert'))
     for _ in range(6000 if thorough else 400):
         cases.append(derive(rng.choice(SUBJECTS), signer(rng.choice(['ed25519', 'ed25519', 'p256', 'rsa1024'])), gen_start(rng),
                             rng.choice(DURATIONS + [rng.randint(1, 631152000)])))
